@@ -6,7 +6,7 @@ KEY_H = "C03:hoisted-walrus-assigned-before-earlier-operands"
 
 def run(ctx: Ctx) -> int:
     n = ctx.pick(120, 1500)
-    nfixed = 6
+    nfixed = 7
     jobs = e4_check.jobs_for(ctx, "c03", n, batch=3, timeout=ctx.pick(240, 1200), total=n + nfixed)
     jobs += e4_check.jobs_for(ctx, "c03", ctx.pick(3, 12), batch=3, timeout=ctx.pick(120, 600), region="hoist-order", key=KEY_H)
     ctx.functions_encoded = ["cfg/builder.py: CFGBuilder.build/visit_* (Assign, AugAssign, If, While, For, Break, Continue, Return, FunctionDef, Expr), ExprBuilder (NamedExpr, IfExp, "
